@@ -46,11 +46,6 @@ theorem tie_export_error (A : Obj) : exportErrors A.euid.isSome = true ↔ A.eui
   unfold exportErrors
   cases h : A.euid <;> simp
 
-/-- f_export_uid: result 0 exactly for a target that has an euid (doExport) -/
-theorem tie_export_target (T : Obj) : exportRefusesTarget T.euid.isSome = true ↔ T.euid ≠ none := by
-  unfold exportRefusesTarget
-  cases h : T.euid <;> simp
-
 /-- the svalue the master returned, as the refusal condition sees it -/
 def ansIsNumber : Ans → Bool
   | .int _ => true
@@ -121,7 +116,7 @@ def governed (w : UidWrite) : Bool :=
   | some .seteuidZero => decide (w.applies = []) && w.path.contains "unless sp->u.number" && w.path.contains s!"if (sp->type & {tNumber})"
   | some .seteuidApproved =>
     w.applies.contains "valid_seteuid" && w.path.contains s!"unless (sp->type & {tNumber})" && w.path.contains refusalGuard
-  | some .exportUid => w.path.contains "unless (current_object->euid == 0)" && w.path.contains "else ob->euid"
+  | some .exportUid => w.path.contains "unless (current_object->euid == 0)"     -- (the target test: `tie_export_write_dominated`)
   | some .reloadReset => true
   | some .preMaster => decide (w.applies = []) && w.path.contains s!"if (get_machine_state() < {msMudlibLimbo})"
   | some .creatorSame =>
@@ -276,7 +271,7 @@ def rhsVal (creator : Obj) (a : Ans) (rhs : String) : Option (Option Name) :=
   if rhs = "current_object->uid" then some creator.uid
   else if rhs = "current_object->euid" then some creator.euid
   else if rhs = "0" then some none
-  else if rhs = "add_uid(<lit:NONAME>)" then some (some "NONAME")
+  else if rhs = "add_uid(<lit:NONAME>)" ∨ rhs = "add_uid(\"NONAME\")" then some (some "NONAME")
   else if rhs = "add_uid(<answer>)" then (match a with
     | .str s => some (some s)
     | _ => none)
@@ -453,5 +448,59 @@ theorem tie_set_master_tree : ∀ rootRet rootIsString bbRet bbIsString : Bool,
     setMasterTree true false false rootRet rootIsString bbRet bbIsString =
       { writes := (if rootRet && rootIsString then [("master_ob->uid", "add_uid(<root-answer>)"), ("master_ob->euid", "master_ob->uid")] else []),
         res := "", asked := ["get_root_uid"], exit := "end" } := by decide
+
+/-- **reload_object = `doReload`** for every world and registered target: the tree's only uid / euid write is `euid := 0`, before
+    create(); the model clears exactly the target's euid, keeps its uid and announces it without a creator_file call -/
+theorem tie_reload_semantics (w : World) (t : Oid) (T : Obj) (hT : getO w.objs t = some T) :
+    (reloadTree true).writes = [("obj->euid", "0"), ("call_create", "call_create(obj, 0)")] ∧
+    (doReload w t).1.objs = setO w.objs { T with euid := none } ∧
+    (doReload w t).2.1 = [{ name := w.nameOf T, ans := none, made := some { T with euid := none } }] ∧
+    (doReload w t).2.2.2 = .int 1 := by
+  refine ⟨by decide, ?_, ?_, ?_⟩ <;> simp [doReload, hT]
+
+/-- **set_master = `initObjs` (first load) and `doDest` of the master (reload)**, for every configuration:
+    first load - with get_root_uid() answering a string the tree writes uid := that name, euid := uid, and the model's first
+    master has uid = euid = `cfg.root`; without it the tree writes nothing and the model's master keeps the pre-master
+    "NONAME" / 0 of give_uid_to_object (`tie_giveuid_tree_premaster`);
+    reload - uid := add_uid(name the NEW master answers), euid := uid, and `doDest` gives the master exactly `rootNow` / `rootNow` -/
+theorem tie_set_master_semantics (cfg : Cfg) (bbRet bbIsString : Bool) (rootNow : Name) (w : World) (A M : Obj)
+    (hM : getO w.objs masterOid = some M) (hr : cfg.noRoot = false) (hg : ¬ (A.oid ≠ masterOid ∧ A.euid = none)) :
+    ((setMasterTree true false true true (!cfg.noRoot) bbRet bbIsString).writes.take 2 =
+        (if cfg.noRoot then [] else [("master_ob->uid", "set_root_uid(<root-answer>)"), ("master_ob->euid", "master_ob->uid")]) ++
+        (if cfg.noRoot && bbRet && bbIsString then [("set_backbone_uid", "set_backbone_uid(ret->u.string)")] else [])) ∧
+    ((initObjs cfg).head?.map (fun m => (m.uid, m.euid)) = some (some cfg.root, some cfg.root)) ∧
+    ((setMasterTree true false false true true bbRet bbIsString).writes =
+        [("master_ob->uid", "add_uid(<root-answer>)"), ("master_ob->euid", "master_ob->uid")]) ∧
+    ((doDest cfg rootNow w A masterOid).1.objs = setO w.objs { M with uid := some rootNow, euid := some rootNow }) := by
+  refine ⟨?_, ?_, ?_, ?_⟩
+  · rw [(tie_set_master_tree true (!cfg.noRoot) bbRet bbIsString).1]
+    cases bbRet <;> cases bbIsString <;> simp [hr]
+  · simp [initObjs, hr]
+  · rw [(tie_set_master_tree true true bbRet bbIsString).2]; simp
+  · unfold doDest
+    simp [hM, hr, hg]
+
+/-- a master WITHOUT get_root_uid(): set_master writes nothing, the model's first master is what give_uid_to_object made of it
+    before a master existed -/
+theorem tie_set_master_noroot (cfg : Cfg) (bbRet bbIsString : Bool) (hr : cfg.noRoot = true) :
+    ((setMasterTree true false true true (!cfg.noRoot) bbRet bbIsString).writes.all (fun w => w.1 != "master_ob->uid" && w.1 != "master_ob->euid") = true) ∧
+    ((initObjs cfg).head?.map (fun m => (m.uid, m.euid)) = some (some "NONAME", none)) := by
+  refine ⟨?_, ?_⟩
+  · rw [(tie_set_master_tree true (!cfg.noRoot) bbRet bbIsString).1]
+    cases bbRet <;> cases bbIsString <;> simp [hr]
+  · simp [initObjs, hr]
+
+/-- **give_uid_to_object before a master exists = the pre-master objects of `initObjs`**: the writes of the pre-master leaf give
+    "NONAME" / 0 - exactly the uids of the simul_efun object (`cfg.simul`) and of a first master without get_root_uid()
+    (`cfg.noRoot`, see `tie_set_master_noroot`: set_master then writes nothing) -/
+theorem tie_premaster_semantics (cfg : Cfg) (creator : Obj) (a : Ans) (b c d e f g h i j : Bool) :
+    applyWrites creator a (giveUidTree true b c d e f g h i j).writes (none, none) = some (some "NONAME", none) ∧
+    (cfg.simul = true → (initObjs cfg).getLast?.map (fun o => (o.oid, o.uid, o.euid)) = some (simulOid, some "NONAME", none)) ∧
+    (cfg.noRoot = true → (initObjs cfg).head?.map (fun o => (o.uid, o.euid)) = some (some "NONAME", none)) := by
+  refine ⟨?_, ?_, ?_⟩
+  · rw [(tie_giveuid_tree_premaster b c d e f g h i j).1]
+    simp [retLeaf, applyWrites, rhsVal]
+  · intro hs; simp [initObjs, hs]
+  · intro hn; simp [initObjs, hn]
 
 end NV.C20
